@@ -237,6 +237,18 @@ def F23():
     return None
 
 
+def F24():
+    """C09: first connection attempt fails under loop_forever(retry_first_connection=True) (the loop_start() path):
+    the client waits min_delay in the first loop AND 2*min_delay in the second one before retrying (3, 4, 8 ... instead of 1, 2, 4 ...)."""
+    from streams.loopforever import run_real
+    o = run_real("lf proto=4 min=1 max=120 rof=1 retry=1 script=refuse:-,refuse:-,refuse:-,acc:0:0:d")
+    times = [int(e.split("@")[1].split(":")[0]) for e in o.split(";") if e.startswith("attempt@")]
+    waits = [b - a for a, b in zip(times, times[1:])]
+    if waits[:3] != [1000, 2000, 4000]:
+        return f"waits between the first attempts are {waits} ms, expected [1000, 2000, 4000]"
+    return None
+
+
 def F8():
     """C06: WebSocket, transport accepts 5 bytes of a frame -> packet dropped from the queue."""
     w = World()
@@ -427,7 +439,7 @@ def F18():
 
 
 ALL = {"F1": F1, "F2": F2, "F3": F3, "F4": F4, "F4b": F4b, "F5": F5, "F6": F6, "F7": F7, "F8": F8, "F9": F9,
-       "F10": F10, "F19": F19, "F20": F20, "F21": F21, "F22": F22, "F23": F23, "F11": F11, "F12": F12, "F13": F13, "F15": F15, "F16": F16, "F17": F17, "F18": F18}
+       "F10": F10, "F19": F19, "F20": F20, "F21": F21, "F22": F22, "F23": F23, "F24": F24, "F11": F11, "F12": F12, "F13": F13, "F15": F15, "F16": F16, "F17": F17, "F18": F18}
 
 
 def run(name):
